@@ -420,6 +420,10 @@ class Executor:
             return copy.deepcopy(val)
         if re.fullmatch(r"[A-Za-z_0-9:<>, ]+ \{\{.*\}\}", text_s):
             return Opaque("const " + text_s.split(" {{")[0].split("::")[-1])
+        # unit variant of an enum (`const Option::<T>::None`, `const MergeOp::TakeLeft`)
+        segs = _strip_generics(text_s).split("::")
+        if len(segs) >= 2 and (segs[-2] in self.BUILTIN_ENUMS or self.src.enum_variants(segs[-2], segs[-1]) is not None):
+            return Agg("enum", [], name=segs[-2], variant=segs[-1])
         # unit-like struct constant (e.g. `const CmpLessThan`)
         if re.fullmatch(r"[A-Za-z_0-9:<>, ]+", text_s) and text_s.split("::")[-1][:1].isupper():
             return Agg("struct", [], name=_strip_generics(text_s).split("::")[-1])
@@ -641,7 +645,7 @@ class Executor:
             segs = bare.split("::")
             if len(segs) >= 2:
                 en, var = segs[-2], segs[-1]
-                if en in ("Option", "Result", "Ordering") or self.src.enum_variants(en, var) is not None:
+                if en in self.BUILTIN_ENUMS or self.src.enum_variants(en, var) is not None:
                     return Agg("enum", fields, name=en, variant=var)
             return Agg("struct", fields, name=segs[-1])
         if k == "discriminant":
@@ -668,7 +672,8 @@ class Executor:
 
     BUILTIN_ENUMS = {"Option": [("None", 0), ("Some", 1)], "Result": [("Ok", 0), ("Err", 1)],
                      "Ordering": [("Less", -1), ("Equal", 0), ("Greater", 1)],
-                     "ControlFlow": [("Continue", 0), ("Break", 1)], "Cow": [("Borrowed", 0), ("Owned", 1)]}
+                     "ControlFlow": [("Continue", 0), ("Break", 1)], "Cow": [("Borrowed", 0), ("Owned", 1)],
+                     "Bound": [("Included", 0), ("Excluded", 1), ("Unbounded", 2)]}
 
     def discriminant_of(self, v):
         if isinstance(v, Havoc):
